@@ -73,7 +73,9 @@ func inModule(t reflect.Type) bool {
 		t = t.Elem()
 	}
 	p := t.PkgPath()
-	return p == "" || strings.HasPrefix(p, ModulePrefix)
+	// sync/atomic: the value held by an atomic.Value / Int32 / ... is shared state like any other
+	// (hashing runs while no other thread does)
+	return p == "" || p == "sync/atomic" || strings.HasPrefix(p, ModulePrefix)
 }
 
 type walker struct {
